@@ -228,6 +228,9 @@ class Obligation:
     feas_timeout_ms: int = 2000
     genericity_tries: int = 6
     wall_cap_s: float = 600.0
+    abs_fork: bool = False    # |x| of a real symbolic x forks on the sign instead of creating a symbol
+    weight: int = 1
+    contracts: tuple = ()     # kernel contracts to assert at the kernel call ('eigh', 'svd', ...)
 
     def ident(self):
         return self.name + "|" + json.dumps(self.cfg, sort_keys=True, default=str)
@@ -271,6 +274,8 @@ def run_obligation(ob: Obligation, seed=0):
     post = ob.post or _default_post
     try:
         ctx = Ctx(ob.mode, ob.name)
+        ctx.abs_fork = ob.abs_fork
+        ctx.contracts = tuple(ob.contracts)
         with use_ctx(ctx), symbolic_mode(objzeros=ob.objzeros, rng=ob.rng, extra=ob.extra_patch):
             z3.set_param("smt.random_seed", seed % 1000)
             b = Builder(ctx)
@@ -321,18 +326,25 @@ def run_obligation(ob: Obligation, seed=0):
                 if cand is None:
                     cand = (p, model, what)
             # reachability twin: some path must be satisfiable with post := false
-            r, _ = ctx.check(paths[0].pc if paths else [], timeout_ms=ob.timeout_ms)
-            rec["reachable"] = (r == "sat")
-            if r == "unsat":
+            live = None
+            for p in paths:
+                r, _ = ctx.check(p.pc, timeout_ms=ob.timeout_ms)
+                if r == "sat":
+                    rec["reachable"] = True
+                    if p.exc is None:
+                        live = p
+                        break
+            if not rec["reachable"]:
+                rec["reachable"] = False
                 all_ok = False
-                rec["notes"].append("vacuous: path condition unsatisfiable")
-            # negative control: wrong oracle must be refuted
-            if ob.neg_control and first_normal is not None and expected is not None:
+                rec["notes"].append("vacuous: no satisfiable path condition")
+            # negative control: wrong oracle must be refuted (on a live normal path)
+            if ob.neg_control and live is not None and expected is not None:
                 bad = (ob.neg or _default_neg)(expected)
                 if bad is not None:
-                    c = post(first_normal.result, bad, inputs)
+                    c = post(live.result, bad, inputs)
                     c = SymBool(c) if not isinstance(c, SymBool) else c
-                    r, _ = ctx.check(first_normal.pc + [as_z3(~c)], timeout_ms=ob.timeout_ms)
+                    r, _ = ctx.check(live.pc + [as_z3(~c)], timeout_ms=ob.timeout_ms)
                     rec["neg_control"] = (r == "sat")
                     if r == "unsat":
                         all_ok = False
@@ -436,6 +448,7 @@ def translator_validation(ob, seed):
     """run the harness on exact rational constants through symnp and on floats through plain numpy"""
     try:
         ctx = Ctx(ob.mode, ob.name + "#tv")
+        ctx.abs_fork = ob.abs_fork
         with use_ctx(ctx), symbolic_mode(objzeros=ob.objzeros, rng=ob.rng, extra=ob.extra_patch):
             b = Builder(ctx, concrete_seed=seed + 1)
             inputs = ob.build(b)
